@@ -105,9 +105,13 @@ newPeers:
 	oldPeers := c.peers
 	c.peers = newPeers
 
+	sessionClosed := false
 	for _, p := range oldPeers {
 		if p == nil {
 			continue
+		}
+		if p.session != nil {
+			sessionClosed = true
 		}
 		level.Info(l).Log("event", "peerRemoved", "peer", p.id, "reason", "removedFromConfig", "msg", "peer deconfigured, closing BGP session")
 
@@ -128,7 +132,14 @@ newPeers:
 		return errors.Join(err, errors.New("failed to sync extra info"))
 	}
 
-	return c.syncPeers(l)
+	if err := c.syncPeers(l); err != nil {
+		return err
+	}
+	if sessionClosed {
+		// Refresh which peers each service is advertised to.
+		return c.updateAds()
+	}
+	return nil
 }
 
 func (c *bgpController) SetEventCallback(callback func(interface{})) {
@@ -233,6 +244,8 @@ func (c *bgpController) syncPeers(l log.Logger) error {
 				level.Error(l).Log("op", "syncPeers", "error", err, "peer", p.id, "msg", "failed to shut down BGP session")
 			}
 			p.session = nil
+			// The services advertised to this peer are not any more.
+			needUpdateAds = true
 		} else if p.session == nil && shouldRun {
 			// Session doesn't exist, but should be running. Create
 			// it.
